@@ -85,13 +85,13 @@ def run(ctx):
         vp.parallel(jobs, maxpar=2)
     else:
         jobs = [lambda k=k: pipeline(ctx, binp, str(k), ctx.seed * 1000 + k, 50, ALL) for k in range(12)]
-        vp.parallel(jobs, maxpar=6)
+        vp.parallel(jobs, maxpar=4)
     ctx.assumptions += [
         "the message octets are an input (m.Pack() taken just before Sign); the wire codec is property C01",
         "the signature primitives and hash functions are Go's standard library, applied to the octets the specification fixes",
         "the SIG validity window is compared as plain unsigned 32-bit numbers (all windows lie within an hour of the current time, far from 2106)",
         "every timing assertion keeps at least 90 s between the wall clock and a window edge; a pipeline slower than 600 s is an infrastructure failure",
-        "quick tier: messages longer than 700 octets are bit-flipped with a stride (header, first octets and the last 90 octets of every region always); thorough flips every bit up to 2000 octets and strides beyond",
+        "quick tier: messages longer than 700 octets are bit-flipped with a stride (header, first octets and the last 90 octets of every region always); thorough flips every bit up to 1200 octets and strides beyond",
         "bit flips in the SIG RR's own owner/type/class/TTL/RDLENGTH are only required not to panic (AMBIG: neither message nor SIG RDATA)",
         "whether the signer name keeps its case in the SIG RDATA is AMBIG: both spellings are admitted; a compressed signer name is not refused",
         "messages whose signed form would exceed 65535 octets are outside the universe",
